@@ -136,6 +136,142 @@ def r11_5(ctx):
     ctx.check(ok, R, 'draw_target::DrawTarget::mask|device-space rects', b.loc(), 'mask rectangles do not depend on self', 'the rectangles mask() passes to composite depend on the DrawTarget state (transform)')
 
 
+USER_PARAMS = {
+    'fill_rect': (2, 3, 4, 5), 'draw_image_with_size_at': (2, 3, 4, 5), 'draw_image_at': (2, 3),
+    'draw_text': (5,), 'draw_glyphs': (5,),
+}
+CMP_OPS = ('Eq', 'Ne', 'Lt', 'Le', 'Gt', 'Ge')
+CMP_CALLS = ('PartialEq::eq', 'PartialEq::ne', 'PartialOrd::lt', 'PartialOrd::le', 'PartialOrd::gt', 'PartialOrd::ge', 'PartialOrd::partial_cmp',
+             'f32::min', 'f32::max', 'cmp::min', 'cmp::max', 'Ord::min', 'Ord::max',
+             '::intersection', '::intersection_unchecked', '::intersects', '::contains', '::contains_box', '::union')
+
+
+def r11_7(ctx):
+    """coordinate-space discipline: a DrawTarget method never compares, adds or subtracts a user-space quantity (the
+    coordinates and sizes its caller passed, the points of a Path) and a device-space one (the surface size, the path
+    cursor, clip rectangles, anything that came out of transform_point) — unless it has established that the transform
+    is the identity.  Only self.transform relates the two spaces."""
+    R = 'R11.7'
+    PATHOP = 'raqote::path_builder::PathOp'
+    nfun = nsite = 0
+    for q in sorted(ctx.F.bodies):
+        if not q.startswith(DT) or '{closure' in q or '::' in q[len(DT):]:
+            continue
+        b = ctx.F.body(q)
+        if not b.argc or 'DrawTarget' not in b.local_ty(1):
+            continue
+        nfun += 1
+        an = ctx.an(b)
+        name = q[len(DT):]
+        upar = set(USER_PARAMS.get(name, ()))
+
+        def space(t):
+            t = strip_all(t)
+            out = set()
+            stack = [t]
+            while stack:
+                x = stack.pop()
+                if not isinstance(x, tuple) or not x:
+                    continue
+                h = x[0]
+                if h == 'call':
+                    d = x[1] if isinstance(x[1], str) else ''
+                    if d.endswith('::transform_point') or d.endswith('::transform_vector') or d in (DT + 'clip_bounds', 'raqote::rasterizer::Rasterizer::get_bounds'):
+                        out.add('device')
+                        continue
+                    if d.endswith('Transform2D::<T, Src, Dst>::inverse') or d.endswith('::identity'):
+                        continue
+                if h == 'param' and len(x) == 2 and x[1] in upar:
+                    out.add('user')
+                    continue
+                if h == 'field' and len(x) >= 4:
+                    if x[3] == PATHOP or (x[3] == 'raqote::path_builder::Path' and x[2] == 'ops'):
+                        out.add('user')
+                        continue
+                    if x[3] == 'raqote::draw_target::DrawTarget' and x[2] in ('width', 'height', 'current_point', 'first_point'):
+                        out.add('device')
+                        continue
+                    if x[3] in ('raqote::draw_target::Clip', 'raqote::draw_target::Layer') and x[2] == 'rect':
+                        out.add('device')
+                        continue
+                for y in (x[1:] if isinstance(x[0], str) else x):
+                    if isinstance(y, tuple):
+                        stack.append(y)
+            return out
+
+        def identity_established(bi):
+            for op, a, b2, si in normalized_guards(ctx, b, bi):
+                if op == 'true' and is_call(a, 'PartialEq::eq') and len(a[2]) == 2:
+                    x0, x1 = strip_all(a[2][0]), strip_all(a[2][1])
+                    if (is_self_field(x0, 'transform') and is_call(x1, 'identity')) or (is_self_field(x1, 'transform') and is_call(x0, 'identity')):
+                        return True
+            return False
+
+        seen = set()
+        sites = []
+
+        def scan(t, bi):
+            for x in subterms(t):
+                pair = None
+                if x[0] == 'bin' and x[1] in CMP_OPS + ('Add', 'Sub'):
+                    pair = (x[2], x[3], x[1])
+                elif x[0] == 'call' and isinstance(x[1], str) and any(x[1].endswith(c) for c in CMP_CALLS) and len(x[2]) == 2:
+                    pair = (x[2][0], x[2][1], x[1].split('::')[-1])
+                if pair is None:
+                    continue
+                sa, sb = space(pair[0]), space(pair[1])
+                if len(sa) == 1 and len(sb) == 1 and sa != sb:
+                    k = (nosite(x), )
+                    if k not in seen:
+                        seen.add(k)
+                        sites.append((bi, x, pair))
+
+        for si, t in b.terminators('switch'):
+            if si in an.cfg.reach:
+                scan(an.term_at(si, len(b.blocks[si]['st']), t['o']), si)
+        for bi, d, ct in calls_in(ctx, b):
+            scan(ct, bi)
+        for d in an.defs:
+            if d.kind == 'assign' and not d.partial and d.bb in an.cfg.reach:
+                scan(an.def_term(d), d.bb)
+        bad = [(bi, x, pair) for bi, x, pair in sites if not identity_established(bi)]
+        nsite += len(sites)
+        key = short(q) + '|user and device space kept apart'
+        if bad:
+            bi, x, pair = bad[0]
+            ctx.fail(R, key, call_line(b, bi), '%s relates the user-space %s to the device-space %s (%s) without going through self.transform and without having tested that the transform is the identity: under any other transform the two are in different coordinate systems'
+                     % (short(q), fmt(b, pair[0] if space(pair[0]) == {'user'} else pair[1]), fmt(b, pair[1] if space(pair[0]) == {'user'} else pair[0]), pair[2]))
+        else:
+            ctx.ok(R, key, b.loc(), '%d mixed sites, all under transform == identity' % len(sites))
+    ctx.floor(R, 'DrawTarget methods scanned for space mixing', nfun, 39)
+
+
+def r11_8(ctx):
+    """a method that draws with its caller's Source draws it under its caller's transform: it never writes
+    self.transform (pop_layer and clear, which do, draw sources of their own making)"""
+    R = 'R11.8'
+    n = 0
+    for q in sorted(ctx.F.bodies):
+        if not q.startswith(DT) or '{closure' in q or '::' in q[len(DT):]:
+            continue
+        b = ctx.F.body(q)
+        if not b.argc or 'DrawTarget' not in b.local_ty(1):
+            continue
+        if not any('draw_target::Source' in b.local_ty(i) for i in range(2, b.argc + 1)):
+            continue
+        n += 1
+        an = ctx.an(b)
+        hits = [pt[0] for a, v, pt, kind in an.stores if field_path(a)[0] == ('param', 1) and field_path(a)[1][:1] == ['transform']]
+        for bi, d, ct in calls_in(ctx, b):
+            if d == DT + 'set_transform':
+                hits.append(bi)
+            elif any(strip_all(a)[0] in ('ref', 'addr') and 'mut' in str(strip_all(a)[1:2]) and is_self_field(strip_all(a)[-1], 'transform') for a in ct[2] if isinstance(a, tuple)):
+                hits.append(bi)
+        ctx.check(not hits, R, short(q) + '|source drawn under the caller\'s transform', call_line(b, hits[0]) if hits else b.loc(), 'no write to self.transform',
+                  '%s receives its caller\'s Source and changes self.transform before drawing: a gradient or image source is then positioned by a different transform than the one the caller set (sources are fixed in user space)' % short(q))
+    ctx.floor(R, 'methods drawing a caller-supplied Source', n, 5)
+
+
 def _r04_5(ctx):
     import sd
     sd.r04_5(ctx)
@@ -145,4 +281,5 @@ _r04_5.__name__ = 'r04_5'
 
 
 def run(ctx):
-    engine.run_rules(ctx, [ras.r08_1, r11_2, r11_3, _r04_5, dt.r11_6, dt.r06_5, r11_5, c13.r13_1, c13.r13_5, c12.r12_1, c12.r12_2, c12.r12_3, c20.r20_3, lambda c: c15.r15_3(c, c.body(c15.CS, 'R15.3'))])
+    import props.c14 as c14
+    engine.run_rules(ctx, [ras.r08_1, r11_2, r11_3, r11_7, r11_8, c14.r14_1, _r04_5, dt.r11_6, dt.r06_5, r11_5, c13.r13_1, c13.r13_5, c12.r12_1, c12.r12_2, c12.r12_3, c20.r20_3, lambda c: c15.r15_3(c, c.body(c15.CS, 'R15.3'))])
